@@ -230,6 +230,23 @@ inline scase generate_case(vrng& r, int cfg, const gen_params& gp, stats* st) {
   }
   universe u = u64 ? gen_universe_u64(r, usize) : gen_universe_bytes(r, usize, gp.short_keys);
   if (u.keys.empty()) u.keys.push_back(u64 ? u64_to_be(1) : std::string("a"));
+  // Full-node block (uint64 keys only, so prefix-freeness is not at stake): one
+  // case in ten starts by loading all 256 byte values at one key position, so
+  // an I256 with 256 children (8-bit count wrapped to 0) exists; the block's
+  // keys join the universe, so the history below also removes / re-inserts them.
+  std::vector<std::string> full_block;
+  if (u64 && r.chance(1, 10)) {
+    const unsigned pos = static_cast<unsigned>(r.below(8));  // 0 = last byte
+    const std::uint64_t base = r.next() & ~(0xFFULL << (8 * pos));
+    const unsigned order = static_cast<unsigned>(r.below(3));
+    for (unsigned b = 0; b < 256; ++b) {
+      const unsigned v = order == 0 ? b : order == 1 ? 255 - b : (b * 37) & 255;
+      full_block.push_back(u64_to_be(base | (static_cast<std::uint64_t>(v) << (8 * pos))));
+    }
+    u.keys.insert(u.keys.end(), full_block.begin(), full_block.end());
+    finish_universe(u);
+    u.kind += "+full256";
+  }
   if (st) st->inc("universe." + u.kind);
   const std::size_t un = u.keys.size();
 
@@ -261,6 +278,15 @@ inline scase generate_case(vrng& r, int cfg, const gen_params& gp, stats* st) {
     return true;
   };
   const unsigned scan_every = gp.fl == F_SCAN ? 4 + static_cast<unsigned>(r.below(30)) : 0;
+  for (const auto& k : full_block) {
+    op o;
+    o.kind = INS;
+    o.key = k;
+    o.vlen = gen_vlen(r);
+    o.vseed = vseed++;
+    model[k];
+    c.ops.push_back(o);
+  }
   for (unsigned i = 0; i < total; ++i) {
     if (model.size() >= un) growing = false;
     if (model.empty()) growing = true;
